@@ -879,3 +879,231 @@ Proof.
     rewrite IH by assumption.
     cbn [rev map]. rewrite <- app_assoc. reflexivity.
 Qed.
+
+(* ====================================================================== *)
+(* 5. Whole containers                                                     *)
+(* ====================================================================== *)
+
+Lemma pl_arr_plain' f b :
+  (forall h r, b = h :: r -> (h =? mType) = false /\ (h =? mCount) = false) -> b <> [] ->
+  ubj_payload (S f) mArrS b = arr_plain (uvalue f f) f b [].
+Proof.
+  intros H Hne. destruct b as [|h r]; [contradiction|].
+  destruct (H h r eq_refl) as [H1 H2]. apply pl_arr_plain; assumption.
+Qed.
+
+Lemma pl_obj_plain' f b :
+  (forall h r, b = h :: r -> (h =? mType) = false /\ (h =? mCount) = false) -> b <> [] ->
+  ubj_payload (S f) mObjS b = obj_plain (uvalue f f) f b [].
+Proof.
+  intros H Hne. destruct b as [|h r]; [contradiction|].
+  destruct (H h r eq_refl) as [H1 H2]. apply pl_obj_plain; assumption.
+Qed.
+
+Lemma arr_head {A} (fb : A -> bytes) (fv : A -> cvalue) l e x :
+  Forall (fun a => gooddec (fb a) (fv a)) l -> (e =? mType) = false -> (e =? mCount) = false ->
+  forall h r, flat_map fb l ++ e :: x = h :: r -> (h =? mType) = false /\ (h =? mCount) = false.
+Proof.
+  intros Hl E1 E2 h r. destruct Hl as [|a l (m & p & E & M & _) _]; cbn [flat_map app].
+  - intro H. inversion H; subst. auto.
+  - rewrite E. cbn [app]. intro H. inversion H; subst.
+    destruct (value_marker_not h M) as (_ & _ & _ & N1 & N2). auto.
+Qed.
+
+Lemma obj_head {A} (fk fb : A -> bytes) l e x :
+  Forall (fun a => zlen (fk a) < int_lim) l -> (e =? mType) = false -> (e =? mCount) = false ->
+  forall h r, flat_map (fun a => string_b (fk a) false ++ fb a) l ++ e :: x = h :: r ->
+  (h =? mType) = false /\ (h =? mCount) = false.
+Proof.
+  intros Hl E1 E2 h r. destruct Hl as [|a l Hk _]; cbn [flat_map app].
+  - intro H. inversion H; subst. auto.
+  - rewrite string_b_false.
+    destruct (len_b_dec (zlen (fk a))) as (m & p & E & M & _); [pose proof (zlen_nonneg (fk a)); lia|].
+    rewrite E. cbn [app]. intro H. inversion H; subst.
+    apply len_marker_value in M.
+    destruct (value_marker_not h M) as (_ & _ & _ & N1 & N2). auto.
+Qed.
+
+Lemma app_cons_not_nil {A} (l : list A) e x : l ++ e :: x <> [].
+Proof. destruct l; discriminate. Qed.
+
+(* ---------- arrays ---------- *)
+Lemma shell_arr_plain {A} (fb : A -> bytes) (fv : A -> cvalue) l :
+  Forall (fun a => gooddec (fb a) (fv a)) l ->
+  gooddec (mArrS :: flat_map fb l ++ [mArrE]) (CArr (map fv l)).
+Proof.
+  intro Hl. exists mArrS, (flat_map fb l ++ [mArrE]).
+  split; [reflexivity|]. split; [reflexivity|].
+  intros rest fuel Hf. destruct fuel as [|f]; [lia|].
+  cbn [app length] in Hf |- *. rewrite <- ?app_assoc in Hf. rewrite <- ?app_assoc. cbn [app] in Hf |- *.
+  rewrite pl_arr_plain'.
+  - apply (arr_plain_loop fb fv f l Hl f [] rest); lia.
+  - eapply arr_head; [exact Hl | reflexivity | reflexivity].
+  - apply app_cons_not_nil.
+Qed.
+
+Lemma good_to_uvalue {A} (fb : A -> bytes) (fv : A -> cvalue) f l :
+  Forall (fun a => gooddec (fb a) (fv a)) l ->
+  Forall (fun a => forall rest, (length (fb a ++ rest) < f)%nat ->
+                   uvalue f f (fb a ++ rest) = RValue (fv a) rest) l.
+Proof.
+  intro H. eapply Forall_impl; [|exact H]. intros a Ha rest Hf.
+  apply uvalue_good; [exact Ha | exact Hf | lia].
+Qed.
+
+Lemma good_nonempty {A} (fb : A -> bytes) (fv : A -> cvalue) l :
+  Forall (fun a => gooddec (fb a) (fv a)) l -> Forall (fun a => (1 <= length (fb a))%nat) l.
+Proof. intro H. eapply Forall_impl; [|exact H]. intros a Ha. eapply gooddec_nonempty; exact Ha. Qed.
+
+Lemma shell_arr_counted {A} (fb : A -> bytes) (fv : A -> cvalue) l :
+  Forall (fun a => gooddec (fb a) (fv a)) l -> zlen l < int_lim ->
+  gooddec (mArrS :: mCount :: len_b (zlen l) ++ flat_map fb l) (CArr (map fv l)).
+Proof.
+  intros Hl Hn. exists mArrS, (mCount :: len_b (zlen l) ++ flat_map fb l).
+  split; [reflexivity|]. split; [reflexivity|].
+  intros rest fuel Hf. destruct fuel as [|f]; [lia|].
+  cbn [app length] in Hf |- *. rewrite <- ?app_assoc in Hf. rewrite <- ?app_assoc. cbn [app] in Hf |- *.
+  rewrite pl_arr_counted.
+  destruct (len_b_dec (zlen l)) as (m & p & _ & _ & L); [pose proof (zlen_nonneg l); lia|].
+  rewrite L. rewrite app_length in Hf.
+  pose proof (length_flat_map_ge fb l (good_nonempty fb fv l Hl)) as Hge.
+  apply (arr_n_loop (uvalue f f) fb fv f l (good_to_uvalue fb fv f l Hl) f [] rest).
+  - rewrite app_length in Hf. lia.
+  - lia.
+Qed.
+
+Definition is_elem_marker (t : Z) : bool := existsb (Z.eqb t) [mS; mi; mU; mI; ml; mL; md; mD; mH].
+
+Lemma elem_marker_props t : is_elem_marker t = true ->
+  is_value_marker t = true /\ ((t =? mZ) || (t =? mT) || (t =? mF)) = false.
+Proof.
+  unfold is_elem_marker. cbn [existsb]. rewrite !orb_true_iff, !Z.eqb_eq. intro H.
+  repeat (destruct H as [->|H]; [split; reflexivity|]). discriminate H.
+Qed.
+
+Lemma pdec_to_payload {A} t (fb : A -> bytes) (fv : A -> cvalue) f l :
+  Forall (fun a => pdec t (fb a) (fv a) /\ (1 <= length (fb a))%nat) l ->
+  Forall (fun a => forall rest, (length (fb a ++ rest) < S f)%nat ->
+                   ubj_payload (S f) t (fb a ++ rest) = RValue (fv a) rest) l.
+Proof. intro H. eapply Forall_impl; [|exact H]. intros a [Ha _] rest _. apply Ha. Qed.
+
+Lemma pdec_nonempty {A} t (fb : A -> bytes) (fv : A -> cvalue) l :
+  Forall (fun a => pdec t (fb a) (fv a) /\ (1 <= length (fb a))%nat) l ->
+  Forall (fun a => (1 <= length (fb a))%nat) l.
+Proof. intro H. eapply Forall_impl; [|exact H]. intros a [_ Ha]. exact Ha. Qed.
+
+Lemma shell_arr_typed {A} t (fb : A -> bytes) (fv : A -> cvalue) l :
+  is_elem_marker t = true ->
+  Forall (fun a => pdec t (fb a) (fv a) /\ (1 <= length (fb a))%nat) l -> zlen l < int_lim ->
+  gooddec ([mArrS; mType; t; mCount] ++ len_b (zlen l) ++ flat_map fb l) (CArr (map fv l)).
+Proof.
+  intros Ht Hl Hn. exists mArrS, ([mType; t; mCount] ++ len_b (zlen l) ++ flat_map fb l).
+  split; [reflexivity|]. split; [reflexivity|].
+  intros rest fuel Hf. destruct fuel as [|f]; [lia|].
+  cbn [app length] in Hf |- *. rewrite <- ?app_assoc in Hf. rewrite <- ?app_assoc. cbn [app] in Hf |- *.
+  rewrite pl_arr_typed. destruct (elem_marker_props t Ht) as [V R]. rewrite V, R. cbn [negb].
+  destruct (len_b_dec (zlen l)) as (m & p & _ & _ & L); [pose proof (zlen_nonneg l); lia|].
+  rewrite L, andb_false_r. rewrite !app_length in Hf.
+  pose proof (length_flat_map_ge fb l (pdec_nonempty t fb fv l Hl)) as Hge.
+  destruct f as [|f]; [lia|].
+  apply (arr_n_loop (ubj_payload (S f) t) fb fv (S f) l (pdec_to_payload t fb fv f l Hl) _ [] rest).
+  - lia.
+  - rewrite app_length. lia.
+Qed.
+
+(* ---------- objects ---------- *)
+Lemma Forall_and_l {A} (P Q : A -> Prop) l : Forall (fun a => P a /\ Q a) l -> Forall P l.
+Proof. intro H. eapply Forall_impl; [|exact H]. intros a [Ha _]. exact Ha. Qed.
+
+Lemma shell_obj_plain {A} (fk fb : A -> bytes) (fv : A -> cvalue) l :
+  Forall (fun a => zlen (fk a) < int_lim /\ gooddec (fb a) (fv a)) l ->
+  gooddec (mObjS :: flat_map (fun a => string_b (fk a) false ++ fb a) l ++ [mObjE])
+          (CObj (map (fun a => (fk a, fv a)) l)).
+Proof.
+  intro Hl. eexists mObjS, _.
+  split; [reflexivity|]. split; [reflexivity|].
+  intros rest fuel Hf. destruct fuel as [|f]; [lia|].
+  cbn [app length] in Hf |- *. rewrite <- ?app_assoc in Hf. rewrite <- ?app_assoc. cbn [app] in Hf |- *.
+  rewrite pl_obj_plain'.
+  - apply (obj_plain_loop fk fb fv f l Hl f [] rest); lia.
+  - eapply obj_head; [eapply Forall_and_l; exact Hl | reflexivity | reflexivity].
+  - apply app_cons_not_nil.
+Qed.
+
+Lemma kgood_to_uvalue {A} (fk fb : A -> bytes) (fv : A -> cvalue) f l :
+  Forall (fun a => zlen (fk a) < int_lim /\ gooddec (fb a) (fv a)) l ->
+  Forall (fun a => zlen (fk a) < int_lim /\
+                   forall rest, (length (fb a ++ rest) < f)%nat ->
+                   uvalue f f (fb a ++ rest) = RValue (fv a) rest) l.
+Proof.
+  intro H. eapply Forall_impl; [|exact H]. intros a [Hk Ha]. split; [exact Hk|].
+  intros rest Hf. apply uvalue_good; [exact Ha | exact Hf | lia].
+Qed.
+
+Lemma length_members_ge {A} (fk fb : A -> bytes) l :
+  Forall (fun a => (1 <= length (fb a))%nat) l ->
+  (length l <= length (flat_map (fun a => string_b (fk a) false ++ fb a) l))%nat.
+Proof.
+  intro H. apply length_flat_map_ge. eapply Forall_impl; [|exact H].
+  intros a Ha. cbv beta in Ha. rewrite app_length. lia.
+Qed.
+
+Lemma kgood_nonempty {A} (fk fb : A -> bytes) (fv : A -> cvalue) l :
+  Forall (fun a => zlen (fk a) < int_lim /\ gooddec (fb a) (fv a)) l ->
+  Forall (fun a => (1 <= length (fb a))%nat) l.
+Proof. intro H. eapply Forall_impl; [|exact H]. intros a [_ Ha]. eapply gooddec_nonempty; exact Ha. Qed.
+
+Lemma shell_obj_counted {A} (fk fb : A -> bytes) (fv : A -> cvalue) l :
+  Forall (fun a => zlen (fk a) < int_lim /\ gooddec (fb a) (fv a)) l -> zlen l < int_lim ->
+  gooddec (mObjS :: mCount :: len_b (zlen l) ++ flat_map (fun a => string_b (fk a) false ++ fb a) l)
+          (CObj (map (fun a => (fk a, fv a)) l)).
+Proof.
+  intros Hl Hn. eexists mObjS, _.
+  split; [reflexivity|]. split; [reflexivity|].
+  intros rest fuel Hf. destruct fuel as [|f]; [lia|].
+  cbn [app length] in Hf |- *. rewrite <- ?app_assoc in Hf. rewrite <- ?app_assoc. cbn [app] in Hf |- *.
+  rewrite pl_obj_counted.
+  destruct (len_b_dec (zlen l)) as (m & p & _ & _ & L); [pose proof (zlen_nonneg l); lia|].
+  rewrite L. rewrite app_length in Hf.
+  pose proof (length_members_ge fk fb l (kgood_nonempty fk fb fv l Hl)) as Hge.
+  apply (obj_n_loop (uvalue f f) fk fb fv f l (kgood_to_uvalue fk fb fv f l Hl) f [] rest).
+  - rewrite app_length in Hf. lia.
+  - lia.
+Qed.
+
+Lemma kpdec_to_payload {A} t (fk fb : A -> bytes) (fv : A -> cvalue) f l :
+  Forall (fun a => zlen (fk a) < int_lim /\ pdec t (fb a) (fv a) /\ (1 <= length (fb a))%nat) l ->
+  Forall (fun a => zlen (fk a) < int_lim /\
+                   forall rest, (length (fb a ++ rest) < S f)%nat ->
+                   ubj_payload (S f) t (fb a ++ rest) = RValue (fv a) rest) l.
+Proof.
+  intro H. eapply Forall_impl; [|exact H]. intros a (Hk & Ha & _). split; [exact Hk|].
+  intros rest _. apply Ha.
+Qed.
+
+Lemma kpdec_nonempty {A} t (fk fb : A -> bytes) (fv : A -> cvalue) l :
+  Forall (fun a => zlen (fk a) < int_lim /\ pdec t (fb a) (fv a) /\ (1 <= length (fb a))%nat) l ->
+  Forall (fun a => (1 <= length (fb a))%nat) l.
+Proof. intro H. eapply Forall_impl; [|exact H]. intros a (_ & _ & Ha). exact Ha. Qed.
+
+Lemma shell_obj_typed {A} t (fk fb : A -> bytes) (fv : A -> cvalue) l :
+  is_elem_marker t = true ->
+  Forall (fun a => zlen (fk a) < int_lim /\ pdec t (fb a) (fv a) /\ (1 <= length (fb a))%nat) l ->
+  zlen l < int_lim ->
+  gooddec ([mObjS; mType; t; mCount] ++ len_b (zlen l)
+           ++ flat_map (fun a => string_b (fk a) false ++ fb a) l)
+          (CObj (map (fun a => (fk a, fv a)) l)).
+Proof.
+  intros Ht Hl Hn. eexists mObjS, _.
+  split; [reflexivity|]. split; [reflexivity|].
+  intros rest fuel Hf. destruct fuel as [|f]; [lia|].
+  cbn [app length] in Hf |- *. rewrite <- ?app_assoc in Hf. rewrite <- ?app_assoc. cbn [app] in Hf |- *.
+  rewrite pl_obj_typed. destruct (elem_marker_props t Ht) as [V R]. rewrite V. cbn [negb].
+  destruct (len_b_dec (zlen l)) as (m & p & _ & _ & L); [pose proof (zlen_nonneg l); lia|].
+  rewrite L. rewrite !app_length in Hf.
+  pose proof (length_members_ge fk fb l (kpdec_nonempty t fk fb fv l Hl)) as Hge.
+  destruct f as [|f]; [lia|].
+  apply (obj_n_loop (ubj_payload (S f) t) fk fb fv (S f) l (kpdec_to_payload t fk fb fv f l Hl) _ [] rest).
+  - lia.
+  - rewrite app_length. lia.
+Qed.
